@@ -682,6 +682,8 @@ func runScript(sc Script) (r scriptResult) {
 				lateSeen = true
 			}
 			delta += usedPerUpdate * t
+		} else {
+			delta += usedPerUpdate // no tariff enquiry reached the peer: unit cost 1
 		}
 		granted := int64(-1)
 		if o.rsp != nil {
